@@ -14,7 +14,8 @@ package dual
 // consumer's behaviour come from the seed.  The harness lives in package dual
 // because a test of the root package cannot import dual (import cycle); the
 // three unexported knobs it needs are exported by harness/dht/c08_shim.go,
-// injected into package dht with the overlay.  FullRT is not driven here.
+// injected into package dht with the overlay.  FullRT is driven by
+// harness/fullrt/c08_test.go (second run of the check, same Run_C08 case type).
 
 import (
 	"context"
@@ -559,8 +560,18 @@ func c08Run(t *testing.T, r *vfRand, c *c08Case) {
 		}
 	}
 	resumed := false
+	// the dual client stops its two inner searches by cancelling them once it has yielded count
+	// providers: a request an inner search issues before that cancellation has reached it is not
+	// "asking further peers".  settledSeq is the gate's sequence number at the first quiescent point
+	// after the count was reached (every goroutine durably blocked: the cancellation has arrived).
+	settledSeq := -1
 	for step := 0; step < 5000; step++ {
 		synctest.Wait()
+		mu.Lock()
+		if fullSeq >= 0 && settledSeq < 0 {
+			settledSeq = gate.Seq()
+		}
+		mu.Unlock()
 		if finished() {
 			break
 		}
@@ -602,8 +613,15 @@ func c08Run(t *testing.T, r *vfRand, c *c08Case) {
 	defer mu.Unlock()
 	gate.mu.Lock()
 	c.Reqs = len(gate.getProv)
+	lateFrom := fullSeq
+	if c.Dual {
+		lateFrom = settledSeq
+		if fullSeq >= 0 && settledSeq < 0 {
+			lateFrom = gate.seq
+		}
+	}
 	for _, s := range gate.getProv {
-		if fullSeq >= 0 && s >= fullSeq {
+		if lateFrom >= 0 && s >= lateFrom {
 			c.LateReq = true
 		}
 	}
@@ -637,7 +655,7 @@ func c08Coq(c *c08Case) string {
 	if c.Takes >= 0 {
 		takes = fmt.Sprintf("(Some %d%%nat)", c.Takes)
 	}
-	return fmt.Sprintf("{| c_dual := %s; c_count := (%d)%%Z; c_shuffle := %d%%nat; c_sides := %s;\n   c_events := %s;\n   c_takes := %s; c_cancelled := %s;\n   c_yields := %s; c_closed := %s; c_late_req := %s; c_bad := %s |}",
+	return fmt.Sprintf("CStd {| c_dual := %s; c_count := (%d)%%Z; c_shuffle := %d%%nat; c_sides := %s;\n   c_events := %s;\n   c_takes := %s; c_cancelled := %s;\n   c_yields := %s; c_closed := %s; c_late_req := %s; c_bad := %s |}",
 		vfBool(c.Dual), c.Count, c.Shuffle, vfList(sides), vfList(evs),
 		takes, vfBool(c.CancelAt >= 0), c08Entries(c.Yields), vfBool(c.Closed), vfBool(c.LateReq), vfBool(c.Panic != "" || c.Dead))
 }
